@@ -51,6 +51,21 @@ def tag_of(name, r):
     return 0 if name == "identity" else int(r["tag"])
 
 
+def probe_retell_overwrites():
+    """Does DataSaver.tell of an already known point replace extra_data (the code as it is; C10 lists this
+    as finding F20 because Learner1D keeps the FIRST value)?  If a later repair keeps the first result
+    instead, the oracle follows it and the model comparison stops at the first such re-tell (DESIGN 4.7)."""
+    from adaptive import DataSaver, Learner1D
+    try:
+        ds = DataSaver(Learner1D(lambda x: x, (-1.0, 1.0)), arg_picker=operator.itemgetter("y"))
+        first, second = {"y": 1.0, "tag": 1}, {"y": 2.0, "tag": 2}
+        ds.tell(0.0, first)
+        ds.tell(0.0, second)
+        return ds.extra_data[0.0] != first        # only "keeps exactly the first result" counts as repaired
+    except Exception:
+        return True
+
+
 class CountingPicker:
     def __init__(self, f):
         self.f, self.calls = f, []
@@ -129,7 +144,7 @@ def apply_op(kind, l, op, wrapped, picker_name):
         return ("exc", type(e).__name__)
 
 
-def drive(spec, hist=None, rng=None, concrete=None, record=True):
+def drive(spec, hist=None, rng=None, concrete=None, record=True, overwrites=True):
     """Run DataSaver(child) on a history.  Returns dict(steps, rec, ds, picker, errors)."""
     from adaptive import DataSaver
     kind, pname = spec["kind"], spec["picker"]
@@ -145,9 +160,15 @@ def drive(spec, hist=None, rng=None, concrete=None, record=True):
     tag = [100]
     stop = None
 
+    retell_at = [None]       # index of the first re-tell the child ignored (F20 trigger), if any
+
     def do(op, full=True):
         nonlocal stop
         ncalls = len(picker.calls)
+        before = None
+        if op[0] == "tell":
+            hp0 = W.hashable(kind, dec_point(kind, child, op[1]))
+            before = {W.hashable(kind, q): v for q, v in child.data.items()}.get(hp0)
         out = apply_op(kind, ds, op, True, pname)
         if op[0] == "tell":
             r = make_result(pname, op[2], op[3])
@@ -155,7 +176,15 @@ def drive(spec, hist=None, rng=None, concrete=None, record=True):
                 hp = W.hashable(kind, dec_point(kind, child, op[1]))
                 if hp not in expected_extra:
                     key_order.append(hp)
-                expected_extra[hp] = r
+                after = {W.hashable(kind, q): v for q, v in child.data.items()}.get(hp)
+                unchanged = before is not None and after == before
+                differs = float(make_picker(pname)(r)) != float(before) if before is not None else True
+                if unchanged and retell_at[0] is None:
+                    retell_at[0] = len(steps)
+                if overwrites or not unchanged or hp not in expected_extra:
+                    expected_extra[hp] = [r]
+                elif not differs:
+                    expected_extra[hp] = expected_extra[hp] + [r]     # repaired F20, same value: either result is fine
             if len(picker.calls) != ncalls + 1 or picker.calls[-1] != r:
                 errors.append(("C18:picker_once", f"tell called the picker {len(picker.calls) - ncalls} times "
                                                   f"(last argument {picker.calls[-1] if picker.calls else None!r}, result {r!r})"))
@@ -173,7 +202,7 @@ def drive(spec, hist=None, rng=None, concrete=None, record=True):
             keys = list(ds.extra_data.keys())
         if keys != key_order:
             errors.append(("C18:extra_data_keys", f"extra_data keys {keys[:6]} != told points {key_order[:6]}"))
-        elif any(ds.extra_data[k] != expected_extra[W.hashable(kind, k)] for k in ds.extra_data):
+        elif any(ds.extra_data[k] not in expected_extra[W.hashable(kind, k)] for k in ds.extra_data):
             errors.append(("C18:extra_data_values", "extra_data value is not the last full result told for the point"))
         else:
             extra_ok = True
@@ -248,7 +277,8 @@ def drive(spec, hist=None, rng=None, concrete=None, record=True):
                 break
     if rec is not None:
         rec.unwrap()
-    return {"steps": steps, "rec": rec, "ds": ds, "errors": errors, "stop": stop, "child": child}
+    return {"steps": steps, "rec": rec, "ds": ds, "errors": errors, "stop": stop, "child": child,
+            "retell_at": retell_at[0]}
 
 
 def twin_check(spec, res):
@@ -371,9 +401,12 @@ def coq_ops(spec, steps):
     return out
 
 
-def case_term(spec, res):
+def case_term(spec, res, overwrites=True):
+    steps = res["steps"]
+    if not overwrites and res.get("retell_at") is not None:
+        steps = steps[:res["retell_at"]]          # a repaired F20: the model (code as it was) is not compared from here on
     return C.pair(W.child_term(res["rec"]),
-                  C.lst((C.tup(op_term(op), out_term(o), C.opt(ob, obs_term)) for op, o, ob in coq_ops(spec, res["steps"])),
+                  C.lst((C.tup(op_term(op), out_term(o), C.opt(ob, obs_term)) for op, o, ob in coq_ops(spec, steps)),
                         sep=";\n  "))
 
 
@@ -397,6 +430,8 @@ def nontrivial(steps):
 
 def run(chk: Check) -> int:
     chk.prove(["theories/Props/C18.vo", "theories/Run/DataSaverRun.vo"], THEOREMS)
+    overwrites = probe_retell_overwrites()
+    chk.log(f"probe: DataSaver.tell of a known point {'replaces' if overwrites else 'keeps'} extra_data (C10:F20)")
     ncases = 600 if chk.quick else 4000
     maxlen = 26 if chk.quick else 60
     cases, metas = [], []
@@ -414,7 +449,7 @@ def run(chk: Check) -> int:
         nonlocal persisted
         steps = res["steps"]
         ops = [list(s[0]) for s in steps]
-        cases.append(case_term(spec, res))
+        cases.append(case_term(spec, res, overwrites))
         metas.append({"spec": spec, "ops": ops, "origin": origin})
         chk.note_case((spec["kind"], spec["picker"], ops), nontrivial(steps))
         for s in steps:
@@ -459,14 +494,14 @@ def run(chk: Check) -> int:
     corpus = sorted((chk.work.parents[1] / "corpus" / "C18").glob("*.json"))
     for j, f in enumerate(corpus):
         d = json.loads(f.read_text())
-        add(d["spec"], drive(d["spec"], concrete=d["ops"]), "corpus/" + f.name, j)
+        add(d["spec"], drive(d["spec"], concrete=d["ops"], overwrites=overwrites), "corpus/" + f.name, j)
     for k in range(ncases):
         rng = chk.rng("case", k)
         kind = KINDS[k % len(KINDS)] if k < 15 else rng.choice(KINDS)
         spec = {"kind": kind, "picker": PICKERS[(k // len(KINDS)) % 3] if k < 15 else rng.choice(PICKERS),
                 "npseed": rng.randrange(10 ** 6), "koff": rng.randrange(8), "size": rng.choice([4, 12, 40])}
         ml = maxlen if kind not in ("lnd", "int") else min(maxlen, 20)
-        res = drive(spec, gen_history(rng, kind, ml), rng)
+        res = drive(spec, gen_history(rng, kind, ml), rng, overwrites=overwrites)
         add(spec, res, f"seed{chk.seed}/{k}", k)
         if len(cases) >= 1500:
             flush(f"cases{k}")
@@ -483,14 +518,14 @@ def run(chk: Check) -> int:
                 for L in range(1, 5):
                     for word in itertools.product(alphabet, repeat=L):
                         spec = {"kind": kind, "picker": pname, "npseed": 1, "koff": 1, "size": 40}
-                        res = drive(spec, warm + list(word), random.Random(exhaustive))
+                        res = drive(spec, warm + list(word), random.Random(exhaustive), overwrites=overwrites)
                         add(spec, res, f"exhaustive/{kind}/{pname}/{exhaustive}", exhaustive)
                         exhaustive += 1
                 flush(f"exh_{kind}_{pname}")
     chk.extra.update({"op_histogram": hist_ops, "child_picker_histogram": kinds, "length_histogram": sizes,
                       "histories_stopped": stops, "persistence_round_trips": persisted,
                       "legal_histories_per_coq": totals["legal"], "cases_compared_in_coq": totals["cases"],
-                      "mismatches": totals["mism"], "exhaustive_small_scope_cases": exhaustive, "exhaustive": False})
+                      "mismatches": totals["mism"], "exhaustive_small_scope_cases": exhaustive, "retell_replaces_extra_data": overwrites, "exhaustive": False})
     chk.log(f"correspondence: {totals['cases']} cases, {totals['mism']} mismatches, {totals['legal']} legal; oracle signatures {sorted(seen)}")
     return chk.finish(
         rule="histories generated by driving the real DataSaver over Learner1D / LearnerND / SequenceLearner / AverageLearner / "
